@@ -43,12 +43,35 @@ def _build(model, hist):
     return w
 
 
-def _future(model, hist):
+def _future(model, hist, viols=None):
+    """Fingerprint of the bounded future of the state reached by hist;
+    violations the look-ahead itself runs into are appended to `viols`."""
     w = _build(model, hist)
     try:
-        return model.future(w)
+        pre = len(w.violations)
+        fp = model.future(w)
+        if viols is not None:
+            viols += [(k, m + ' [in the look-ahead after the history]')
+                      for k, m in w.violations[pre:]]
+        return fp
     finally:
         model.close(w)
+
+
+def drain_future(model, w, ops):
+    """A generic bounded look-ahead: apply `ops` (typically "every
+    transport is lost"), run the model's probe, and return the keys of the
+    violations met as the fingerprint.  On a tree where the property holds
+    the fingerprint is always empty, so no state is split; where hidden
+    state makes two merged histories behave differently later, the
+    difference is found whichever history the search kept."""
+    pre = len(w.violations)
+    for op in ops:
+        if op in model.ops(w):
+            model.apply(w, op)
+    if hasattr(model, 'probe'):
+        model.probe(w)
+    return tuple(sorted({k for k, _ in w.violations[pre:]}))
 
 
 def _noop_violation(model, w, op, fp, parent_fp):
@@ -61,10 +84,10 @@ def _noop_violation(model, w, op, fp, parent_fp):
 
 
 def _expand(args):
-    name, params, hists = args
+    name, params, hists, use_future = args
     try:
         model = _MODELS[name](**params)
-        has_future = hasattr(model, 'future')
+        has_future = use_future and hasattr(model, 'future')
         out = []
         for hist in hists:
             hist = list(hist)
@@ -91,7 +114,7 @@ def _expand(args):
                 obs = getattr(w, 'obs_key', None)
                 model.close(w)
                 if has_future:
-                    fp = _future(model, hist + [op])
+                    fp = _future(model, hist + [op], viols)
                     key = (key, fp)
                     viols += _noop_violation(model, w, op, fp, parent_fp)
                 out.append((tuple(hist) + (op,), key, viols, obs))
@@ -126,13 +149,13 @@ def chunks(seq, n):
 
 
 def explore(name, params, result, max_depth, workers=None, max_states=None,
-            prefix=''):
+            prefix='', use_future=True):
     """BFS to closure or max_depth.  Returns dict(states, transitions,
     max_depth, closure).  Violations go to result.violation()."""
     model = _MODELS[name](**params)
     w0 = model.initial()
     k0 = model.canon(w0)
-    if hasattr(model, 'future'):
+    if use_future and hasattr(model, 'future'):
         k0 = (k0, _future(model, []))
     if hasattr(model, 'probe'):
         model.probe(w0)
@@ -150,7 +173,7 @@ def explore(name, params, result, max_depth, workers=None, max_states=None,
     while frontier and depth < max_depth:
         depth += 1
         nxt = []
-        jobs = [(name, params, c) for c in
+        jobs = [(name, params, c, use_future) for c in
                 chunks(frontier, max(1, len(frontier) // 64))]
         if serial or len(frontier) < 4:
             results = map(_expand, jobs)
@@ -197,6 +220,6 @@ def replay(name, params, hist):
     model.close(w)
     if hasattr(model, 'future') and hist:
         hist = list(hist)
-        v += _noop_violation(model, w, hist[-1], _future(model, hist),
+        v += _noop_violation(model, w, hist[-1], _future(model, hist, v),
                              _future(model, hist[:-1]))
     return v
